@@ -86,7 +86,11 @@ def main():
             for cfg in itertools.product(range(1, maxp + 1), repeat=ns):
                 if sum(cfg) > (7 if quick else 9): continue
                 for wells in (1, 3):
-                    distinct += explore(cfg, k, wells, viol, stats)
+                    try:
+                        distinct += explore(cfg, k, wells, viol, stats)
+                    except Exception as e:  # the policy raised on a well-formed input
+                        if len(viol) < 3:
+                            viol.append({"k": k, "plates_per_sample": list(cfg), "wells": wells, "batch": [], "what": "raised %r" % (e,), "site": "KPerSamplePlatePolicy.filter_eligible_plates"})
     # multi-sample plate is refused
     scr = Screen(observations=np.zeros(2), observation_mask=np.zeros(2, bool), sample_names=np.array(["a", "b"]),
                  plate_names=np.array(["p", "p"]), treatment_names=np.array([["x", "y"]] * 2), treatment_doses=np.ones((2, 2)))
